@@ -1,5 +1,6 @@
 import Syzgy.Model.Query.Parser
 import Syzgy.Lemmas.ParseSpec
+import Syzgy.Lemmas.LexSpec
 /-!
 # C15 — a filter is accepted only if its whole text is one expression
 -/
@@ -61,5 +62,26 @@ theorem null_then_and (nok : Query.NumOK) (p : Query.Path) (hp : p.numsOK nok) (
     Query.parseSrc (Query.listSrc ((Query.Expr.and (.cmp .eq p .null) B).toks 0)) nok fuel =
       .ok (.expr (.expr p.ast b!"==" (.value .null)) b!"AND" B.ast) :=
   Query.parse_canonical nok (.and (.cmp .eq p .null) B) (show (Query.Expr.cmp .eq p .null).OK nok ∧ B.OK nok from ⟨⟨hp, by intro lit h; cases h⟩, hB⟩) fuel hf
+
+/-- **the same on text**: any spelling (arbitrary white space) of the canonical tokens of an expression followed
+    by a token that cannot continue it — a literal, a name, a lower-case `and`, a closing bracket, a
+    second expression — and by anything else lexable, is refused with "unexpected token after expression" -/
+theorem text_then_junk_is_rejected (nok : Query.NumOK) (e : Query.Expr) (he : e.OK nok) (j : Query.Token)
+    (J : List Query.Token) (hj : Query.isComparisonOperator j.type = false) (hand : j.type ≠ .and) (hor : j.type ≠ .or)
+    (heof : j.type ≠ .eof) (items : List (Bytes × Query.Token)) (trail : Bytes)
+    (htoks : items.map (·.2) = e.toks 0 ++ j :: J) (hok : Query.SpellOK items) (htrail : Query.isWsList trail) :
+    Query.parse (Query.ofList (Query.spell items ++ trail)) nok = .err "unexpected token after expression" := by
+  rw [Query.parse_spelled items trail hok htrail nok, htoks]
+  apply Query.trailing_rejected nok e he j J hj hand hor heof
+  have h1 := e.need_le_toks 0
+  have h2 := Query.spell_length items hok
+  have h3 : items.length = (e.toks 0 ++ j :: J).length := by rw [← htoks]; simp
+  simp only [Query.parseFuel, List.length_append, List.length_cons] at h3 ⊢
+  omega
+
+/-- a lower-case `and` is a name, not the connective: it is lexable as an identifier and so is covered by
+    `text_then_junk_is_rejected` -/
+example : Query.Lexable (Query.tk .identifier b!"and") :=
+  ⟨Query.word_of_list _ (by decide) (by decide), by decide, by decide⟩
 
 end Syzgy.C15
